@@ -233,10 +233,16 @@ func callVsym(fr *frame, fn *ssa.Function, args []value) value {
 		c.obs = append(c.obs, ov)
 		return nil
 	case "VsClass":
+		cl := argStr(args[0])
+		for _, have := range strings.Split(c.class, ",") {
+			if have == cl {
+				return nil
+			}
+		}
 		if c.class != "" {
 			c.class += ","
 		}
-		c.class += argStr(args[0])
+		c.class += cl
 		return nil
 	case "VsIsSymbolic": // (x interface{}) bool : does any part of x depend on a symbolic variable
 		return deepSymbolic(args[0], 0)
